@@ -38,10 +38,12 @@ Definition knot_bytes (d : dimrec) : N := (nknots d + 2 * order d) * sizeof_doub
 
 (* ---------------------------------------------------------------- read_fits_core, in program order *)
 
-(* aux[i] = allocate<char_ptr>(2); aux[i][0] = allocate<char>(keylen); aux[i][1] = allocate<char>(valuelen)
-   with keylen = strlen(key)+1, valuelen = strlen(value)+1 *)
+(* aux[i] = allocate<char_ptr>(2); aux[i][0] = allocate<char>(keylen); aux[i][1] = allocate<char>(storedlen)
+   with keylen = strlen(key)+1 and storedlen = strlen(stored value)+1, the stored value being the raw value minus the
+   stripped outer quotes and collapsed doubled quotes (since the fix "read_fits requests exactly the stored length of an
+   auxiliary value"; before it the request was strlen(raw value)+1 and the release strlen(stored)+1) *)
 Definition aux_entry_sizes (a : auxrec) : list N :=
-  [ 2 * sizeof_char_ptr; (keylen a + 1) * sizeof_char; (vallen a + 1) * sizeof_char ].
+  [ 2 * sizeof_char_ptr; (keylen a + 1) * sizeof_char; (vallen a - strip a + 1) * sizeof_char ].
 
 (* aux = allocate<char_ptr_ptr>(naux): always executed — a primary header always has keys (nkeys > 0) *)
 Definition aux_sizes (sh : shape) : list N :=
